@@ -27,6 +27,11 @@ fn monotone(ctx: &Ctx, maxlen: usize) -> (u64, u64) {
         ("(2,16,20,62)", SetSketchParams::new(2.0, 16, 20., 62)),
         ("(1.2,3,20,3)", SetSketchParams::new(1.2, 3, 20., 3)),
         ("(1.2,64,20,400)", SetSketchParams::new(1.2, 64, 20., 400)),
+        // extreme rates a: registers saturate at q+1 after a few items / stay at 0 for a long time
+        ("(2,8,2^52,63)", SetSketchParams::new(2.0, 8, 2f64.powi(52), 63)),
+        ("(2,4,2^44,62)", SetSketchParams::new(2.0, 4, 2f64.powi(44), 62)),
+        ("(1.2,8,1e14,200)", SetSketchParams::new(1.2, 8, 1e14, 200)),
+        ("(1.001,4,1e-4,65534)", SetSketchParams::new(1.001, 4, 1e-4, 65534)),
     ];
     let nsym = 9usize; // 6 items, a burst, a merge with a 30-item sketch, a merge with a 3-item sketch
     let mut streams = 0u64;
@@ -45,6 +50,7 @@ fn monotone(ctx: &Ctx, maxlen: usize) -> (u64, u64) {
                     })
                     .collect();
                 let r = guarded_mut(|| {
+                    let mle = MleJaccard::new(p.get_b(), p.get_m(), p.get_a());
                     let mut sk = new_ss::<u16>(p);
                     let mut other = new_ss::<u16>(p);
                     for x in 500u64..530 {
@@ -71,6 +77,11 @@ fn monotone(ctx: &Ctx, maxlen: usize) -> (u64, u64) {
                             return Some(format!("estimate went from {} to {} at step {}", prev, e, i));
                         }
                         prev = e;
+                        // the parallel estimator on the raw registers agrees up to rounding
+                        let pe = mle.get_cardinal_estimate(sk.get_signature());
+                        if !(((pe - e) / e).abs() <= 64. * f64::EPSILON || (pe == e)) {
+                            return Some(format!("at step {} the sketcher estimates {} but the parallel estimator on the same registers {}", i, e, pe));
+                        }
                     }
                     None
                 });
@@ -366,13 +377,13 @@ fn parallel_model(ctx: &Ctx) -> ParOut {
                 let card_of = |sum: f64| m as f64 * (1. - 1. / b) / (20. * lnb * sum);
                 let modelled: BTreeSet<u64> = sums.iter().map(|x| card_of(f64::from_bits(*x)).to_bits()).collect();
                 // every bracketing agrees with the sequential estimate up to rounding
-                let tol = m as f64 * f64::EPSILON;
+                let tol = (m as f64 + 32.) * f64::EPSILON; // "up to rounding": m additions plus a few operations of the closed form
                 for c in &modelled {
                     let c = f64::from_bits(*c);
                     if ((c - seq) / seq).abs() > tol {
                         out.findings.push((
                             "parallel:bracketing-spread".into(),
-                            format!("b={} m={} registers {:?}: some reduction order gives {} while the sequential estimate is {} (beyond m*2^-52 relative)", b, m, sig, c, seq),
+                            format!("b={} m={} registers {:?}: some reduction order gives {} while the sequential estimate is {} (beyond (m+32)*2^-52 relative)", b, m, sig, c, seq),
                             json!({"kind": "parallel", "b": b, "sig": sig}),
                         ));
                         break;
@@ -439,7 +450,7 @@ pub fn run(ctx: &Ctx) -> i32 {
         let bias_limit = 2. * o.rsd * o.rsd;
         let mut bad_bias = o.rel_bias.abs() > bias_limit + 6. * o.bias_se;
         let mut bad_spread = cfg.m >= 64 && (o.spread_ratio - 1.).abs() > 0.15 + 6. * o.spread_se;
-        let bad_par = o.par_max_rel_diff > cfg.m as f64 * f64::EPSILON;
+        let bad_par = o.par_max_rel_diff > (cfg.m as f64 + 32.) * f64::EPSILON;
         let mut confirm = None;
         if bad_bias || bad_spread {
             let mut c2 = cfg.clone();
@@ -484,7 +495,7 @@ pub fn run(ctx: &Ctx) -> i32 {
         "evaluations": streams + par.real_runs + sets + entry_runs,
         "distinct_nontrivial": par.distinct_sums + details.len() as u64,
         "entry_points": {"runs": entry_runs, "distinct_estimates": entry_distinct, "what": "all ordered selections of 1..3 items from 8 items (hashes 0, 1, 2^64-1, 2^64-2, 2^63, 2^32, 2^32-1, 12345 through the no-op hasher; the same integers through Fnv), 2 parameter sets: the estimate and registers are the same item by item, as one slice, as two slices, as items then a slice and as a slice then items; a singleton is estimated between 0.4 and 2.5"},
-        "rule": "monotone: every stream of length 5 (6) over {6 items, a burst of 12 items, merges with two different fixed sketches} for 5 parameter sets, estimate non-decreasing after every step (exact); parallel estimator: for m<=9 (11) and 3 bases, ALL Catalan(m-1) bracketings of the sum of the m register terms are enumerated (the reduction orders a rayon pool can realise), every one must agree with the sequential estimate within m*2^-52 relative, and the real get_cardinal_estimate run under pools of 1,2,3,4,8,16 threads must be a member of the modelled outcome set (trace validation); accuracy: n in {1,2,10,1e3,1e5,(1e6)} x m in {64,256,(1024,4096)} x 3 (b,q) x u16/u32 x with/without repetition, T disjoint sets each (T>=36m where the item budget allows): |mean(n^/n)-1| <= 2 rsd^2 + 6 se, |sd/rsd-1| <= 0.15 + 6 se, confirmed on a 4x larger fresh block; distinct = distinct bracketing sums + configurations",
+        "rule": "monotone: every stream of length 5 (6) over {6 items, a burst of 12 items, merges with two different fixed sketches} for 9 parameter sets (4 of them with extreme rates a: registers saturating at q+1 or staying at 0), estimate non-decreasing after every step (exact) and equal to the parallel estimator on the same registers up to rounding; parallel estimator: for m<=9 (11) and 3 bases, ALL Catalan(m-1) bracketings of the sum of the m register terms are enumerated (the reduction orders a rayon pool can realise), every one must agree with the sequential estimate within (m+32)*2^-52 relative, and the real get_cardinal_estimate run under pools of 1,2,3,4,8,16 threads must be a member of the modelled outcome set (trace validation); accuracy: n in {1,2,10,1e3,1e5,(1e6)} x m in {64,256,(1024,4096)} x 3 (b,q) x u16/u32 x with/without repetition, T disjoint sets each (T>=36m where the item budget allows): |mean(n^/n)-1| <= 2 rsd^2 + 6 se, |sd/rsd-1| <= 0.15 + 6 se, confirmed on a 4x larger fresh block; distinct = distinct bracketing sums + configurations",
         "samples": [
             {"monotone_stream": [0, 6, 3, 7, 3], "meaning": "item 1, burst, item 4, merge, item 4"},
             {"bracketings": {"m": 4, "terms": "b^-k_i of the 4 registers", "trees": 5}},
